@@ -12,7 +12,9 @@ import (
 	"strings"
 
 	"github.com/LindsayBradford/crem/internal/pkg/annealing/solution"
+	"github.com/LindsayBradford/crem/internal/pkg/model"
 	"github.com/LindsayBradford/crem/internal/pkg/model/archive"
+	"github.com/LindsayBradford/crem/internal/pkg/model/models/catchment"
 	"github.com/LindsayBradford/crem/internal/pkg/parameters"
 )
 
@@ -168,6 +170,27 @@ func runTx(prop string, args []string) {
 						limit = J{"var": limVar, "max": flOf(limMax)}
 					}
 					c := catchOpen(catchTestdata(ds), prm)
+					// the instance may already have a life behind it: it judged a change and was re-initialised, or it
+					// is a clone of a used instance (what explorers, saver and engine do); the property quantifies over
+					// all reachable states, and a fresh build must not be the only one exercised
+					switch p.intn(3) {
+					case 1:
+						c.toggleObserved(p.intn(n))
+						c.m.ChangeIsValid()
+						c.m.RevertChange()
+						c.m.Initialise(model.AsIs)
+						stats["warm:reinitialised"]++
+					case 2:
+						c.toggleObserved(p.intn(n))
+						c.m.ChangeIsValid()
+						c.m.AcceptChange()
+						clone := c.m.DeepClone().(*catchment.CoreModel)
+						clone.Initialise(model.AsIs)
+						c = &catchInst{m: clone, path: c.path, prm: c.prm, pus: clone.PlanningUnits(), nact: len(clone.ManagementActions())}
+						stats["warm:clone-of-used"]++
+					default:
+						stats["warm:fresh"]++
+					}
 					c.apply(catchOp{Op: "SYNC", Bits: bits})
 					before := c.obs()
 					attrsBefore := c.allAttrs()
